@@ -25,7 +25,9 @@ def run_tie(rng_tag, sources, timeout_per_job=4.0):
                 rec["rust"] = {"dedup": PC.field(forms, "dedup"), "nodedup": PC.field(forms, "nodedup")}
                 rec["ast"] = ast
                 mjobs.append(f"(lowerm q{i} {ast})")
+                mjobs.append(f"(frag f{i} {ast})")
                 rec["mid"] = f"q{i}"
+                rec["fid"] = f"f{i}"
         elif r.startswith("(compile crash") or "abort" in r or "timeout" in r or "no-result" in r:
             rec["status"] = "crash"
         recs.append(rec)
@@ -33,6 +35,10 @@ def run_tie(rng_tag, sources, timeout_per_job=4.0):
     for rec in recs:
         if rec["status"] != "pending":
             continue
+        fr = ml.get(rec["fid"], "")
+        rec["imp"] = "(imp 1)" in fr
+        rec["kfree"] = "ok" if "(kfree ok)" in fr else "crash" if "(kfree crash)" in fr else "other"
+        rec["ands"] = {c: (rec["rust"][c] or "").count("(a ") for c in ("dedup", "nodedup")}
         m = ml.get(rec["mid"], "(no-result)")
         forms = PC.split_top(m)
         rec["model"] = {"dedup": PC.field(forms, "dedup"), "nodedup": PC.field(forms, "nodedup")}
@@ -84,6 +90,20 @@ def tie_pass(ck, sources, max_programs=150, tag="tie"):
                      "the theorems about the lowering no longer speak about the code",
                      {"program": r["src"], "first_difference": r["detail"], "correspondence": "Compile/Lower.v lower_program vs "
                       "garble_lang::compile (SSA circuit, structural equality)"}, found_input=False)
+    # theorems that apply per program (executable membership tests, extracted): the imperative scalar fragment on
+    # which TSem = Sem.v is proved, and the data-movement class whose circuits provably have zero AND gates
+    imp = sum(1 for r in recs if r.get("imp"))
+    kfree = [r for r in recs if r.get("kfree") == "ok"]
+    bad_free = [r for r in kfree if r["status"] == "equal" and (r["ands"]["dedup"] or r["ands"]["nodedup"])]
+    ck.obligation("FreeLower.data_movement_zero_and on the real compiler: every tied program whose constness run "
+                  "(klower_main) succeeds compiles to zero AND gates, dedup on and off", not bad_free,
+                  "; ".join(f"{r['name']}: {r['ands']}" for r in bad_free[:3]))
+    for r in bad_free[:3]:
+        ck.violation(f"a program in the proved data-movement class compiles to {r['ands']} AND gates",
+                     {"program": r["src"], "theorem": "FreeLower.data_movement_zero_and"})
+    ck.coverage["theorem_fragments"] = {
+        "tied_programs": tied, "in_imperative_scalar_fragment (TSem = Sem.v proved)": imp,
+        "in_data_movement_class (zero AND gates proved)": len(kfree)}
     ck.coverage["lowering_tie"] = {"candidates": len(recs), "by_status": cnt, "gates_tied": sum(r.get("gates", 0) for r in recs),
                                    "rule": "typed AST exported from the real checker -> extracted Lower.lower_program -> circuit "
                                            "compared for equality with the real compiler's Circuit{input_gates,gates,output_gates}"}
